@@ -170,6 +170,46 @@ Theorem C04_readcache_transparent :
 Proof. exact readcache_transparent. Qed.
 Print Assumptions C04_readcache_transparent.
 
+(** The hit test compares full 64-bit addresses and the address space: a slot
+    answers only for addresses inside its own region [addr, addr+size) of the same
+    space, for ALL 64-bit addresses (so in particular not for addresses 2^16, 2^31,
+    2^32, 2^63 … away, which a narrowing cast of the offset would accept). *)
+Theorem C04_readcache_hit_exact :
+  forall (s : slot) (a_as a : N),
+    addr s + size s <= W -> a < W ->
+    (hit_test s a_as a = true <-> a_as = as_ s /\ addr s <= a < addr s + size s).
+Proof. exact readcache_hit_exact. Qed.
+Print Assumptions C04_readcache_hit_exact.
+
+(** hence find_slot (get_cache_buf's hit, bury_cache_buffer's match) returns the
+    first slot that owns the address, nothing iff no slot owns it, and bury moves
+    exactly that slot *)
+Theorem C04_readcache_find_slot_exact :
+  forall (c : cache) (a_as a : N),
+    nowrap c -> a < W ->
+    (forall i, find_slot c a_as a = Some i ->
+       owns (get_slot c i) a_as a /\
+       forall j, ix_to_N j < ix_to_N i -> ~ owns (get_slot c j) a_as a) /\
+    (find_slot c a_as a = None <-> forall i, ~ owns (get_slot c i) a_as a) /\
+    ((forall i, ~ owns (get_slot c i) a_as a) -> bury c a_as a = c) /\
+    (forall i, find_slot c a_as a = Some i ->
+       bury c a_as a = {| slots := slots c; rg := bury_ring (rg c) i |}).
+Proof. exact readcache_find_slot_exact. Qed.
+Print Assumptions C04_readcache_find_slot_exact.
+
+(** the truncated variants (offset computed in k < 64 bits, e.g. a helper
+    returning [unsigned]) are refuted: a slot falsely answers 2^k away, and for
+    k = 16, 31, 32, 63 two reads on the synthetic callback return the first
+    region's bytes for the second address *)
+Theorem C04_readcache_hit_truncated_refuted :
+  (forall k : N, k < 64 ->
+     let s := {| as_ := 0; addr := 0; size := 1; ptr := None |} in
+     2 ^ k < W /\ ~ (addr s <= 2 ^ k < addr s + size s) /\
+     hit_test_w k s 0 (2 ^ k) = true /\ hit_test s 0 (2 ^ k) = false) /\
+  Forall trunc_witness [16; 31; 32; 63].
+Proof. exact readcache_hit_truncated_refuted. Qed.
+Print Assumptions C04_readcache_hit_truncated_refuted.
+
 (** LRU order: the victim of a miss is the least recently touched slot; a
     successful call moves its slot to the front; bury moves it to the back and
     makes it the next victim (ring read from [mru] along [next]). *)
@@ -424,3 +464,59 @@ Example C04_nonvacuous :
          (fun k : N => if k =? 3 then None else Some (k * 16)) nil [1; 2; 1; 3; 4; 1]) =
     [PageCacheAbs.ROk 16; PageCacheAbs.ROk 32; PageCacheAbs.ROk 16; PageCacheAbs.RErr; PageCacheAbs.ROk 64; PageCacheAbs.ROk 16].
 Proof. split; [exact fcache_nonvacuous | exact instance_run]. Qed.
+
+(* ===== begin: C04 over C06's model of cache.c (added by the cache agent; append-only block) ===== *)
+From KdV Require Cache.CacheList Cache.CacheRing Cache.CacheAsPageCache.
+
+(** [C04_pagecache_transparent] instantiated with the faithful list-level model
+    of cache.c ([Cache/CacheList.v], repaired reclaim_data; instance in
+    [Cache/CacheAsPageCache.v]: state = cache state x contents of the data
+    buffers, [pc_get] = cache_get_entry + cache_entry_valid, [pc_insert] =
+    write the buffer then cache_insert, [pc_discard] = cache_discard, [pc_put]
+    = cache_put_entry; the relational form of the interface,
+    [PageCacheAbs.pagecache_never_busy], is used).  For every capacity >= 1,
+    every pure [fill] and every sequence of keys read by the single-threaded
+    reader of read.c (get; on a miss fill and insert, or discard when the fill
+    fails; use; put) each read returns [fill k] -- never BUSY, since no
+    reference is outstanding between two reads -- independent of everything
+    read before. *)
+Theorem C04_pagecache_transparent_C06 :
+  forall (D : Type) (fill : N -> option D) (cap : nat) (ks : list N), (0 < cap)%nat ->
+    Forall2 (fun (k : N) (r : PageCacheAbs.rd D) => r = pure_answer N D fill k) ks
+      (fst (PageCacheAbs.run (CacheAsPageCache.pc D) nat N D
+              (CacheAsPageCache.pc_get D) (CacheAsPageCache.pc_insert D)
+              (CacheAsPageCache.pc_discard D) (CacheAsPageCache.pc_put D) fill
+              (CacheAsPageCache.pc_init D cap) ks)).
+Proof. exact CacheAsPageCache.pagecache_transparent_C06. Qed.
+Print Assumptions C04_pagecache_transparent_C06.
+
+(** the same for the pointer-level model of cache.c ([Cache/CacheRing.v]:
+    next/prev arrays, split, counters, in-flight head), through the ring
+    refinement of C06 *)
+Theorem C04_pagecache_transparent_C06_ring :
+  forall (D : Type) (fill : N -> option D) (cap : nat) (ks : list N), (0 < cap)%nat ->
+    Forall2 (fun (k : N) (r : PageCacheAbs.rd D) => r = pure_answer N D fill k) ks
+      (fst (PageCacheAbs.run (CacheAsPageCache.rpc D) nat N D
+              (CacheAsPageCache.rpc_get D) (CacheAsPageCache.rpc_insert D)
+              (CacheAsPageCache.rpc_discard D) (CacheAsPageCache.rpc_put D) fill
+              (CacheAsPageCache.rpc_init D cap) ks)).
+Proof. exact CacheAsPageCache.pagecache_transparent_C06_ring. Qed.
+Print Assumptions C04_pagecache_transparent_C06_ring.
+
+(** non-vacuity: capacity 2, keys 1 2 1 3 4 1 2 with key 3 unreadable, on both models *)
+Example C04_pagecache_C06_run :
+  let fill := fun k : N => if (k =? 3)%N then None else Some (k * 16)%N in
+  fst (PageCacheAbs.run (CacheAsPageCache.pc N) nat N N
+         (CacheAsPageCache.pc_get N) (CacheAsPageCache.pc_insert N)
+         (CacheAsPageCache.pc_discard N) (CacheAsPageCache.pc_put N) fill
+         (CacheAsPageCache.pc_init N 2) [1; 2; 1; 3; 4; 1; 2]%N) =
+    [PageCacheAbs.ROk 16; PageCacheAbs.ROk 32; PageCacheAbs.ROk 16; PageCacheAbs.RErr;
+     PageCacheAbs.ROk 64; PageCacheAbs.ROk 16; PageCacheAbs.ROk 32]%N /\
+  fst (PageCacheAbs.run (CacheAsPageCache.rpc N) nat N N
+         (CacheAsPageCache.rpc_get N) (CacheAsPageCache.rpc_insert N)
+         (CacheAsPageCache.rpc_discard N) (CacheAsPageCache.rpc_put N) fill
+         (CacheAsPageCache.rpc_init N 2) [1; 2; 1; 3; 4; 1; 2]%N) =
+    [PageCacheAbs.ROk 16; PageCacheAbs.ROk 32; PageCacheAbs.ROk 16; PageCacheAbs.RErr;
+     PageCacheAbs.ROk 64; PageCacheAbs.ROk 16; PageCacheAbs.ROk 32]%N.
+Proof. split; vm_compute; reflexivity. Qed.
+(* ===== end: C04 over C06's model of cache.c ===== *)
